@@ -642,3 +642,30 @@ Qed.
 
 
 
+
+(* ---------------------------------------------------------------------------------------------- *)
+(* stop; start at the next block (the autosave of sync.c): two ring sessions back to back.  Session 1 runs on the
+   position list l and is stopped early after h stripes, session 2 is started on the rest of the list and runs to
+   the end of the range: together the caller is handed exactly l, each position once and in order. *)
+
+Lemma restart_order : forall P1 P2 st1 st2,
+  RingInv P1 st1 -> RingInv P2 st2 ->
+  poss P2 = skipn (length (handed st1)) (poss P1) ->
+  stopped st2 -> bailed st2 = false ->
+  rev (handed st1) ++ rev (handed st2) = poss P1.
+Proof.
+  intros P1 P2 st1 st2 I1 I2 E S B.
+  rewrite (order_handed P1 st1 I1), (order_complete P2 st2 I2 S B), E. apply firstn_skipn.
+Qed.
+
+Lemma restart_written : forall P1 P2 st1 st2,
+  3 <= pn P1 -> 1 <= pR P1 -> 3 <= pn P2 -> 1 <= pR P2 -> 0 < pW P2 ->
+  RingInv P1 st1 -> RingInv P2 st2 ->
+  poss P2 = skipn (M st1) (poss P1) ->
+  cpc st2 = CEnd -> bailed st2 = false ->
+  map fst (written st1) ++ map fst (written st2) = poss P1.
+Proof.
+  intros P1 P2 st1 st2 Hn1 HR1 Hn2 HR2 HW I1 I2 E C B.
+  rewrite (order_written P1 Hn1 HR1 st1 I1).
+  destruct (order_writer_final P2 Hn2 HR2 st2 0 I2 C HW) as [_ F]. rewrite (F B), E. apply firstn_skipn.
+Qed.
